@@ -24,7 +24,10 @@ parameter identifiers are the call site's identifiers.  No renaming pass, nothin
   `F25.f25_hygienic` are the kernel-checked witnesses that the former counterexample now expands hygienically.
 * `recursive_rejected`: if the rule reaches a macro that reaches itself, the expansion is an error within the
   depth budget; the expansion functions are structurally recursive (termination is by construction:
-  `expandBody_total`), and the budget is only a cut-off (`expandBody_mono`).
+  `expandBody_total`), and the budget is only a cut-off (`expandBody_mono`).  The expansion returns the FIRST error, left to
+  right, also in heads and inside disjunctions (the real code since fix deae510; before it a macro invoking itself twice per
+  level cost 2^50 / 2^100 expansions — finding FM8): `FM8.branching_disjunction_rejected` / `FM8.branching_head_rejected` /
+  `FM8.branching_rule_rejected` evaluate the former witnesses in the kernel.
 
 PROOF STATUS.  Everything is proved.  Two statements were FALSE as first drafted (artefacts of the model's encoding, not of the Rust code;
 machine-checked counterexamples in the last section, `namespace CE`); the drafts are kept in comment blocks (`expand_hygienic_draft`,
@@ -2399,6 +2402,53 @@ theorem f25_hygienic :
 end F25
 
 
+/-! ## finding FM8 (fixed by deae510): a macro that invokes itself twice per level
+
+`recursive_rejected` / `recursive_rejected_heads` say WHAT the answer is; the real code needed 2^50 (two invocations inside one
+disjunction) resp. 2^100 (two invocations in a head macro) expansions to reach it, because heads and disjunctions expanded ALL their
+items before looking for an error.  Since the fix the first error is returned at once (`punctuated_try_map`), which is how
+`expandAltsWith` / `expandItemsWith` / `expandHeadsWith` thread their `Except` — left to right, nothing behind the first error is
+evaluated: the kernel reaches the answer along the leftmost branch, 100 steps deep.  (`decide +kernel`: the instance is evaluated
+by the kernel, which shares the expansion state threaded through the items; the elaborator's own call-by-name evaluation, which plain
+`decide` runs first, re-evaluates it at every use and gives up beyond depth ~30.  No axiom is involved either way.) -/
+
+namespace FM8
+open F25
+
+/-- `macro m0($p0: ident) { (m0!($p0) | m0!($p0)) }` and, in head position, `macro m0($p0: ident) { m0!($p0), m0!($p0) }` -/
+def self : MInv Var := { mac := 0, args := [.ident paramBase] }
+def defs : Defs Var (Var × Var) Unit Unit Unit :=
+  [{ params := [.ident],
+     body := .cons (.disj (.cons (.cons (.mac self) .nil) (.cons (.cons (.mac self) .nil) .nil))) .nil,
+     heads := [.mac self, .mac self] }]
+
+/-- call site `r1(v0), m0!(v0)` -/
+def site : SItems Var (Var × Var) Unit Unit Unit (MInv Var) :=
+  .cons (.flat (.clause 1 [.var 0] [])) (.cons (.mac { mac := 0, args := [.ident 0] }) .nil)
+
+def isRecursive {α : Type} : Except ExpandErr α → Bool
+  | .error .recursive => true
+  | _ => false
+
+set_option maxRecDepth 100000 in
+/-- `r3(v0) <-- r1(v0), m0!(v0);` is answered "recursively defined Ascent macro", by evaluation -/
+theorem branching_disjunction_rejected : isRecursive (expandBody ops0 defs false macroDepth {} site) = true := by
+  decide +kernel
+
+set_option maxRecDepth 100000 in
+/-- `m0!(v0) <-- r1(v0);` likewise -/
+theorem branching_head_rejected :
+    isRecursive (expandHeads ops0 defs macroDepth [.mac { mac := 0, args := [.ident 0] }]) = true := by decide
+
+set_option maxRecDepth 100000 in
+/-- the whole rule (`expandRule`: body, then heads), with the branching macro in the body resp. only in the head -/
+theorem branching_rule_rejected :
+    isRecursive (expandRule ops0 defs false { heads := [], body := site }) = true ∧
+    isRecursive (expandRule ops0 defs false
+      { heads := [.mac { mac := 0, args := [.ident 0] }], body := .cons (.flat (.clause 1 [.var 0] [])) .nil }) = true := by
+  constructor <;> decide +kernel
+end FM8
+
 /-! ## the two statements found false: machine-checked counterexamples
 
 All three use the one-sorted operations `F25.ops0` (an expression is a variable), which satisfy `OpsLaws` and `VarsLaws`. -/
@@ -2641,6 +2691,9 @@ open AscentVerif.Surface
 #print axioms F25.f25_fixed
 #print axioms F25.f25_ideal
 #print axioms F25.f25_hygienic
+#print axioms FM8.branching_disjunction_rejected
+#print axioms FM8.branching_head_rejected
+#print axioms FM8.branching_rule_rejected
 #print axioms CE.f25_hyps
 #print axioms CE.f25_by_theorem
 #print axioms CE.expand_hygienic_false_agg
